@@ -14,6 +14,13 @@ CORPUS = [
     ("(str 4)", "(s 616263)", [30, 0]),                               # 8 length octets
     ("(str 4)", "(s 616263)", [34, 0]),                               # 9 length octets (more than a machine word)
     ("(seq (r int) (r (str 4)))", "(seq (i 7) (s 7879))", [478, 0, 2, 0, 478, 0, 0]),   # 121 length octets, nested
+    # an untagged CHOICE whose chosen alternative is again an untagged CHOICE, found by tag: as a SET member (any
+    # order) and as a SEQUENCE component behind skipped OPTIONAL / DEFAULT ones
+    ("(set (r int) (r (choice (r (choice (r bool) (r (str 4)))) (r null))))", "(seq (i 5) (ch 0 (ch 1 (s 6162))))", [0, 0, 0, 0, 0, 0]),
+    ("(set (r int) (r (choice (r (choice (r bool) (r (str 4)))) (r null))))", "(seq (i 5) (ch 0 (ch 0 (b 1))))", [0, 1, 0, 0, 1, 0, 0]),
+    ("(seq (o int) (d (b 1) bool) (r (choice (r (choice (r (str 4)) (r bits))) (r null))))", "(seq absent (b 1) (ch 0 (ch 0 (s 61))))", [0, 0, 0, 0]),
+    ("(seq (o int) (d (b 1) bool) (r (choice (r (choice (r (str 4)) (r bits))) (r null))))", "(seq absent (b 1) (ch 0 (ch 1 (bits 101))))", [1, 0, 1, 0, 0]),
+    ("(seq (o (tag e c 0 int)) (r (choice (r (choice (r (choice (r oid) (r real))) (r int))) (r null))))", "(seq absent (ch 0 (ch 0 (ch 0 (oid 1 2 3)))))", [0, 0, 0]),
 ]
 
 
